@@ -12,6 +12,8 @@ from tools.lib.vlib import cN, cZ, cbool, clist, copt, ctext
 PROP = "C19"
 GEN = ["GenUri"]
 ASSUMPTIONS = [
+    "accepted sets are compared one-sidedly: what the implementation accepts must be what the model says; strings it rejects although the "
+    "model accepts them are not compared (the property quantifies over accepted strings); rejection = errors.PyroError, its text is not observed",
     "re.match behaves as the hand-written matchers for the two patterns (the pattern texts are regenerated and re-checked against "
     "the ones the model implements; behaviour is compared on every generated string)",
     "int() on str: strips the code points of GenUri.intws_table, accepts a sign and decimal digits of any Unicode block with single "
@@ -849,8 +851,12 @@ def c_scase(case, obs, ns_port):
     ops, outs = [], []
     for op, ob in zip(case["ops"], obs):
         if op[0] == "reg":
-            ops.append("SReg %s %s %s %s" % (ctext(op[1]), ctext(ob[2]), cbool(bool(op[3])), cbool(not ob[3])))
-            outs.append("ORegOk" if ob[1] == "ok" else "ORegRejected")
+            if ob[1] == "ok":
+                ops.append("SReg %s %s %s %s" % (ctext(op[1]), ctext(ob[2]), cbool(bool(op[3])), cbool(not ob[3])))
+                outs.append("ORegOk")
+            else:   # refused: nothing stored; the property does not say which strings must be accepted
+                ops.append("SRefused %s %s" % (ctext(op[1]), ctext(ob[2])))
+                outs.append("ORegRejected")
         elif op[0] == "del":
             ops.append("SDel %s" % ctext(op[1]))
             outs.append("ODel %s" % cN(ob[1]))
